@@ -181,3 +181,44 @@ class Ticker:
         t = self.trace
         self.trace = []
         return t
+
+
+class _RecRow(dict):
+    """one row of ply's LR action table that records which (state, lookahead)
+    entries the running parser consults (hits and misses)."""
+    __slots__ = ('state', 'seen')
+
+    def get(self, key, default=None):
+        self.seen.add((self.state, key))
+        return dict.get(self, key, default)
+
+
+class LRCoverage:
+    """Instruments ONE ply LRParser instance (the engine's own parser object):
+    every consultation of its action table is recorded.  `hits` are entries of
+    the table (shift/reduce/accept actions taken), `misses` are (state, token)
+    pairs that are syntax errors.  States with a single default reduction are
+    not consulted by ply (defaulted_states) and are excluded from the total."""
+
+    def __init__(self, parser):
+        self.parser = parser
+        self.seen = set()
+        self.orig = parser.action
+        rows = {}
+        for st, row in self.orig.items():
+            r = _RecRow(row)
+            r.state = st
+            r.seen = self.seen
+            rows[st] = r
+        parser.action = rows
+        defaulted = getattr(parser, 'defaulted_states', {})
+        self.entries = {(st, tok) for st, row in self.orig.items() if st not in defaulted for tok in row}
+
+    def hits(self):
+        return self.seen & self.entries
+
+    def misses(self):
+        return self.seen - self.entries
+
+    def restore(self):
+        self.parser.action = self.orig
